@@ -8,6 +8,7 @@ anywhere in the payload, single-element dimensions, N = 0.
 """
 
 import random
+import zlib
 
 import numpy as np
 
@@ -86,6 +87,8 @@ class G:
             mode = self.pick(["none", "none", "frac", "frac", "zeros", "unit8"])
         if mode == "none":
             return None
+        if mode == "allzero":
+            return np.zeros(N)
         if mode == "unit8":
             return np.array([r.choice([0.5, 1.0, 1.5, 2.0]) for _ in range(N)])
         if mode == "frac":
@@ -153,6 +156,10 @@ class G:
         dates = r.sample(DATES, min(n, len(DATES))) if kind == "cat_date" else None
         if dates is not None:
             dates.sort()
+            if len(dates) > 1 and zlib.crc32(repr(dates).encode()) % 4 == 0:
+                # a wave appended to the variable later: the labels are not ascending in payload
+                # order (no random draw is consumed, so every other case stays as it was)
+                dates.append(dates.pop(0))
         nv_mode = numeric if numeric in ("none", "all", "some") else "some"
         for j in range(n):
             c = {"id": ids[j], "name": "%s%s_%d" % (prefix, "m" if flags[j] else "", ids[j]),
